@@ -678,6 +678,7 @@ def main(ctx):
     # 1b. the reader's offsets (translate/c04_offsets.py): same policy
     OFF_REGION = 'femio/formats/ucd/ucd.py:UCDData.read_* line and column arithmetic'
     try:
+        off = None
         off, sha = c04_offsets.translate(str(lib.REPO))
         ctx.sources[OFF_REGION] = sha
         off_text = c04_offsets.emit(off)
@@ -715,16 +716,30 @@ def main(ctx):
             ctx.obligations.append({'name': nm, 'discharged': cfg_is_ok, 'assumptions': ax, 'note': note})
     ctx.notes['cfg_ok'] = cfg_is_ok
     # 2c. per-run obligation: translated reader offsets = the positions the model reads at
-    offsets_ok = None
+    offsets_ok, offsets_reachable_diff = None, False
     if tie_ok and proof_ok:
         ok, log, _ = lib.coq_make(['C04/gen/UcdOffsets.vo', 'C04/Offsets.vo'])
         rc, out, err = ctx.coq_eval('ReaderOffsets', OFFSETS_V) if ok else (1, '', log)
         offsets_ok = rc == 0
         ax = [] if 'Closed under the global context' in out else re.findall(r'^([A-Za-z0-9_.\']+)\s*:', out, flags=re.M)
-        ctx.obligations.append({
-            'name': 'C04_reader_offsets', 'discharged': offsets_ok, 'assumptions': ax,
-            'note': '' if offsets_ok else 'the offsets translated from ucd.py differ from the model\'s for some '
-                                          'header counts (gen/UcdOffsets.v vs Offsets.v): ' + err[-300:]})
+        note, offsets_reachable_diff = '', False
+        if not offsets_ok:
+            # which header counts?  Only counts a WRITTEN file can have matter to the round trip; a
+            # difference on other counts (inconsistent files) is recorded, not alarmed
+            diffs = c04_offsets.differences(off) if off else []
+            offsets_reachable_diff = any(r for _, _, r in diffs) or not diffs
+            ctx.notes['reader_offsets_differences'] = [
+                {'quantity': k, 'counts': c, 'file_can_be_written': r} for k, c, r in diffs[:12]]
+            note = ('the offsets translated from ucd.py differ from the model\'s for some header counts '
+                    '(gen/UcdOffsets.v vs Offsets.v); on counts a written file can have: %s; %s'
+                    % (offsets_reachable_diff, err[-300:]))
+            degraded.append((OFF_REGION, 'obligation C04_reader_offsets does not hold: the model\'s hand-written '
+                                         'positions (Offsets.v) stay the model of this region'))
+            ctx.log('C04_reader_offsets not provable ->', 'differences on writable counts' if offsets_reachable_diff
+                    else 'differences only on header counts no written file has', '-> widened correspondence')
+        ctx.obligations.append({'name': 'C04_reader_offsets', 'discharged': offsets_ok, 'assumptions': ax,
+                                'note': note})
+        ctx.notes['translator_degraded'] = [{'region': r, 'reason': w} for r, w in degraded]
         ctx.notes['reader_offsets'] = off_text.split('From Coq Require Import Arith.')[-1].strip().splitlines()
     # 3. hypothesis exercised
     hb = hypothesis_check(ctx, 20000 if ctx.tier == 'quick' else 400000)
@@ -801,7 +816,7 @@ def main(ctx):
         ctx.violation('tie-broken', {'what': 'the model (Corr.v + gen/UcdCfg.v) does not build'},
                       'model builds', 'does not build', 'C04/Corr.vo', found_input=False,
                       signature={'kind': 'tie-broken', 'model': 'does not build'})
-    elif not proof_ok or offsets_ok is False:
+    elif not proof_ok or (offsets_ok is False and offsets_reachable_diff):
         bad = [o['name'] for o in ctx.obligations if not o['discharged']]
         ctx.violation('proof-broken', {'undischarged': bad, 'failing_input_reported_separately': found_any},
                       'all theorems of C04/Props.v check', 'do not check', ', '.join(bad),
